@@ -662,12 +662,38 @@ pub fn replay_fun(scenario: &str, input: &Value) -> Vec<Finding> {
     }
 }
 
+pub fn predefined_user_contended(full: bool) -> crate::scn::ChatScn {
+    use crate::check::Cat;
+    let mut s = super::ghost::ghost_scn("c20-predefined-user-contended", &[Cat::UserExistence, Cat::UserIdentity, Cat::UserModes], full);
+    s.cfg.users = vec![("uu".into(), "bob".into(), None, None)];
+    s.cfg.label = "predefined user uu".into();
+    s.parts[1].user = "uu";
+    s.extra_actions = Some(Box::new(|scn, v| {
+        let mut acts = vec![];
+        for p in &scn.parts {
+            if p.late && v.life[p.slot] == crate::world::Life::Live && v.nick(p.slot).is_none() {
+                acts.push(crate::bfs::Act::Send(p.slot, format!("NICK {}", p.alt)));
+                acts.push(crate::bfs::Act::Send(p.slot, "USER guest 0 * :Guest".into()));
+            }
+        }
+        acts
+    }));
+    for slot in [1usize, 2] {
+        s.probes_for.push((slot, "MODE {me}"));
+    }
+    s.probe_focus = Some(crate::check::Focus { cats: vec![], relays: false, relay_verbs: None, actor: true, actor_codes: Some(vec!["221"]), closes: false });
+    s
+}
+
 pub fn plan(quick: bool) -> Plan {
     let mut plan = plan_base();
     // predefined channels, users and operators govern behaviour as documented: the
     // configuration lattice of C16 and configured-user / configured-operator scenarios of C03 / C11
     plan.parts.push(Part::Custom("fun:c16-lattice".into(), Box::new(move || super::chat::c16_lattice(quick))));
     plan.parts.extend(super::reg::c20_user_parts(quick));
+    // "predefined users": who counts as one is decided by the USER name the connection has
+    // when its registration completes, whatever earlier attempts of that connection named
+    plan.parts.push(Part::Bfs(Box::new(predefined_user_contended(!quick)), super::lim(if quick { 6 } else { 7 }, 2_000_000, if quick { 20.0 } else { 600.0 })));
     plan.parts.extend(super::life::c20_oper_parts(quick));
     plan.rule.push_str("; (f) predefined channels (the 16-setting lattice of C16: settings present from start-up, listed in MODE queries, ranks given on join, persistence while empty), predefined users (3 configurations of C03) and predefined operators / default user modes (2 configurations of C11) on the wire");
     if !quick {
